@@ -342,3 +342,32 @@ def validator_input(case_id, rr, ce):
     out.append("result %s" % rr.result)
     out.append("end")
     return "\n".join(out) + "\n"
+
+
+def run_history(w, steps, timeout=120):
+    """Materialises the world once and performs several runs on the same tree.
+    steps: list of dicts with optional keys plan, sched, threads, resize, scans (list of rel tuples),
+    presented, scans_override (raw byte paths), export_override.  Returns the list of RunResults."""
+    import copy
+    os.makedirs(SANDBOX_BASE, exist_ok=True)
+    root = tempfile.mkdtemp(prefix="tbv-", dir=SANDBOX_BASE)
+    out = []
+    try:
+        tree = os.path.join(root, "w")
+        worldgen.materialise(w, tree)
+        for st in steps:
+            w2 = copy.copy(w)
+            if "threads" in st:
+                w2.threads = st["threads"]
+            if "resize" in st:
+                w2.resize = st["resize"]
+            if "scans" in st:
+                w2.scans = st["scans"]
+            rr = RunResult()
+            rr.root = root
+            rr = run_in_tree(w2, tree, rr, st.get("plan"), st.get("sched"), timeout, st.get("scans_override"), st.get("export_override"), st.get("presented"))
+            rr.world = w2
+            out.append(rr)
+        return out
+    finally:
+        shutil.rmtree(root, ignore_errors=True)
